@@ -1,4 +1,7 @@
 """C07 - adjoint-state gradient equals the derivative of the data misfit."""
+import os
+import shutil
+import tempfile
 import warnings
 
 import numpy as np
@@ -7,19 +10,34 @@ from hypothesis import strategies as st
 from vp import gen, simgen
 from vp.framework import Violation, Inconclusive
 
-RULE = ("Generated stretched grid (6..10 x 4..8 x 4..8), gridding='same', "
-        "linear receivers; 1..3 sources of mixed type (electric point, "
+RULE = ("Generated stretched grid (6..10 x 4..8 x 4..8), computational grid "
+        "= model grid (gridding='same', or 'input'/'dict' with an "
+        "equal-valued copy of the model grid), linear receivers; 1..3 "
+        "sources of mixed type (electric point, "
         "dipole in three coordinate formats, wire; magnetic point, dipole), "
         "1..4 electric/magnetic receivers (absolute and source-relative), "
-        "1..3 frequencies; six mappings x four anisotropy cases; observed "
+        "1..3 frequencies in drawn (not ascending) order; sources/receivers/"
+        "frequencies given as lists, as dicts with non-alphabetical keys or "
+        "as nested lists; six mappings x four anisotropy cases; optional "
+        "mu_r/epsilon_r of ones (array or scalar); observed "
         "data = data of a perturbed model with a generated NaN mask; noise "
-        "model {scalar, per-source, per-receiver, per-frequency, full} x "
-        "{noise floor, relative error, both, explicit std}; perturbation "
-        "direction dense / single cell / single component.  Oracle: central "
+        "model {scalar, per-source, per-receiver, per-frequency, full} "
+        "independently for noise floor and relative error, explicit std, "
+        "std together with floor/error (std has priority), given through "
+        "the constructor, the setters (also after a reset of a set std) or "
+        "the data dict; simulation options {1 or 2 workers, file_dir, "
+        "explicit tol_gradient}; history before the gradient is taken "
+        "{fresh, compute, misfit, clean('keepresults'), 'results' and "
+        "'computed' round trips, gradient for other observed data/std then "
+        "clean('computed'), jtvec first, jvec first}; perturbation "
+        "direction dense / single cell (interior, or anywhere with faces/"
+        "edges/corners forced) / single component / outer cell layer.  "
+        "Oracle: central "
         "finite differences (steps 2e-2, 1e-2, 1e-3 and Richardson) of the "
         "misfit of forward data obtained by DIRECT solves of the checker-"
         "assembled operator converge at second order to <gradient, "
-        "direction>; "
+        "direction>; for the sparse directions additionally relative to "
+        "|g.d| itself; "
         "misfit equals the checker's own formula; shape per anisotropy case; "
         "finite entries.  Non-trivial = misfit>0, |g|>0, all solves "
         "converged; distinct by the whole spec.")
@@ -30,16 +48,65 @@ ASSUMPTIONS = [
     ">=30x decrease from step 1e-2 to 1e-3 when above the floor (measured: "
     "typically 1e-9, worst 7e-7 at the best step over 750 thorough cases; "
     "the smallest effect of a mutant/seeded change was 2.5e-4)",
+    "sparse directions (single cell, single component, outer layer): "
+    "additionally |FD - g.d| <= 1e-3 |g.d| + 3e-6 ||g|| ||d|| (the floor "
+    "term covers the round-off of the finite differences)",
+    "the history 'other observed data, gradient, set the real data/noise, "
+    "clean(\"computed\"), gradient' assumes that clean('computed') removes "
+    "everything derived from the data (its docstring: all computed "
+    "properties); data are changed through survey.data['observed'][...] "
+    "and the documented setters",
+    "unit mu_r/epsilon_r are admitted by the gradient (its test is "
+    "allclose(v, 1)); the checker's direct solves use the same mu_r/"
+    "epsilon_r",
 ]
 SHARDS = {'quick': 1, 'thorough': 16}
 STEPS = [2e-2, 1e-2, 1e-3]
+
+DIRS = ['dense', 'dense', 'cell', 'component', 'cell_any', 'boundary']
+SPARSE_DIRS = ('cell', 'component', 'cell_any', 'boundary')
+HISTORIES = ['fresh', 'fresh', 'compute', 'misfit', 'keepresults',
+             'results_rt', 'copy', 'regrad_newobs', 'jtvec_first',
+             'jvec_first']
+SIMOPTS = [None, None, None, 'workers2', 'file_dir', 'input_grid',
+           'dict_grid', 'tol_gradient']
+KEYS = ['auto', 'auto', 'dict', 'nested']
+UNITS = [None, None, None, 'mur', 'epsr', 'both', 'scalar']
+NOISE_KINDS = ['nf', 're', 'both', 'both', 'std', 'std+nf', 'std+both']
+NOISE_VIA = ['ctor', 'setter', 'setter_reset', 'data_dict']
+
+# Flags for single generator branches (rule: a branch on which the unchanged
+# tree violates the property is switched off and reported, not allow-listed).
+ENABLE_HISTORY = True
+ENABLE_SIMOPT = True
+ENABLE_KEYS = True
+ENABLE_NOISE2 = True
+ENABLE_UNIT = True
+ENABLE_SPARSE_ORACLE = True
+
+
+def noise_spec():
+    return st.fixed_dictionaries({
+        'kind': st.sampled_from(NOISE_KINDS),
+        'nf_shape': st.sampled_from(simgen.NOISE_SHAPES),
+        're_shape': st.sampled_from(simgen.NOISE_SHAPES),
+        'std_shape': st.sampled_from(simgen.NOISE_SHAPES),
+        'via': st.sampled_from(NOISE_VIA),
+    })
 
 
 def spec_strategy():
     return st.fixed_dictionaries({
         'problem': simgen.problem_spec(),
-        'dir': st.sampled_from(['dense', 'dense', 'cell', 'component']),
+        'dir': st.sampled_from(DIRS),
         'dseed': gen.SEED,
+        # keys below are read with .get (old replay files do not have them)
+        'history': st.sampled_from(HISTORIES),
+        'simopt': st.sampled_from(SIMOPTS),
+        'keys': st.sampled_from(KEYS),
+        'fperm': gen.SEED,
+        'unit': st.sampled_from(UNITS),
+        'noise': st.one_of(st.none(), noise_spec(), noise_spec()),
     })
 
 
@@ -58,49 +125,336 @@ def checker_misfit(survey_obs, syn, nf, re, std):
         np.broadcast_to(std, obs.shape))[fin]**2))
 
 
+# ------------------------------------------------------------ generators
+def _apply_keys(p, spec):
+    """Order of the frequencies and container type of sources, receivers
+    and frequencies (spec keys 'fperm', 'keys'); in place, before any survey
+    is made from `p`.  Old specs: ascending list, plain lists."""
+    mode = spec.get('keys') if ENABLE_KEYS else None
+    if mode is None:
+        return 'auto', False
+    perm = gen.rng_of(spec.get('fperm', 0), 87).permutation(len(p.freqs))
+    p.freqs = [p.freqs[int(i)] for i in perm]
+    ascending = all(a < b for a, b in zip(p.freqs[:-1], p.freqs[1:]))
+    if mode == 'dict':
+        # arbitrary names whose alphabetical order differs from the order of
+        # insertion (and, for the frequencies, from the order of the values)
+        fn = ['zz', 'a', 'm-3']
+        sn = ['TxZ', 'TxA', 'TxM', 'Tx0']
+        rn = ['RxZ', 'RxB', 'Rx-1', 'RxA', 'Rx9', 'RxC']
+        p.freqs = {fn[i]: f for i, f in enumerate(p.freqs)}
+        p.sources = {sn[i]: s for i, s in enumerate(p.sources)}
+        p.receivers = {rn[i]: r for i, r in enumerate(p.receivers)}
+    elif mode == 'nested':
+        s, r = list(p.sources), list(p.receivers)
+        p.sources = [s[0], s[1:]] if len(s) > 1 else [s]
+        if len(r) > 2:
+            p.receivers = [[r[0]], {'x': r[1], 'a': r[2]}, *r[3:]]
+        elif len(r) == 2:
+            p.receivers = [[r[0]], r[1]]
+        else:
+            p.receivers = [r]
+    return mode, not ascending
+
+
+def _apply_unit(p, spec):
+    """Model with mu_r and/or epsilon_r equal to one (spec key 'unit')."""
+    import emg3d
+    u = spec.get('unit') if ENABLE_UNIT else None
+    if u is None:
+        return None
+    shape = tuple(p.grid.shape_cells)
+    names, arrs = simgen.param_arrays(p)
+    mur = {'mur': np.ones(shape), 'both': np.ones(shape),
+           'scalar': 1.0}.get(u)
+    epsr = {'epsr': np.ones(shape), 'both': np.ones(shape),
+            'scalar': 1.0}.get(u)
+    p.model = emg3d.Model(p.grid, mapping=p.mapping, mu_r=mur,
+                          epsilon_r=epsr, **dict(zip(names, arrs)))
+    return u
+
+
+def _noise(p, obs, spec):
+    """(noise_floor, relative_error, std given to the survey, via, labels).
+    Old specs (no 'noise'): simgen.noise_args, constructor."""
+    ns_ = spec.get('noise') if ENABLE_NOISE2 else None
+    ps = spec['problem']
+    if ns_ is None:
+        kw, std = simgen.noise_args(p, obs)
+        return (kw.get('noise_floor'), kw.get('relative_error'), std, 'ctor',
+                (ps['noise_kind'], ps['noise_shape'], ps['noise_shape']))
+    rng = gen.rng_of(ps['seed'], 85)
+    ns, nr, nf = p.shape
+    shapes = {'scalar': None, 'src': (ns, 1, 1), 'rec': (1, nr, 1),
+              'freq': (1, 1, nf), 'full': (ns, nr, nf)}
+    amp = float(np.nanmedian(np.abs(obs))) if np.any(np.isfinite(obs)) \
+        else 1.0
+    if not np.isfinite(amp) or amp == 0:
+        amp = 1.0
+
+    def draw(base, shape):
+        shp = shapes[shape]
+        if shp is None:
+            return float(base*rng.uniform(0.5, 2))
+        return base*rng.uniform(0.5, 2, size=shp)
+    kind = ns_['kind']
+    nfl = rel = std = None
+    if kind in ('nf', 'both', 'std+nf', 'std+both'):
+        nfl = draw(0.05*amp, ns_['nf_shape'])
+    if kind in ('re', 'both', 'std+both'):
+        rel = draw(0.05, ns_['re_shape'])
+    if kind.startswith('std'):
+        std = np.broadcast_to(draw(0.1*amp, ns_['std_shape']), p.shape).copy()
+    return nfl, rel, std, ns_['via'], (kind, ns_['nf_shape'], ns_['re_shape'])
+
+
+def _make_survey(p, obs, nfl, rel, std, via):
+    """Survey with the noise model given in one of the documented ways."""
+    import emg3d
+    data = obs.copy()
+    if via == 'data_dict' and std is not None:
+        data = {'observed': obs.copy(), 'standard_deviation': std.copy()}
+    kw = {}
+    if via in ('ctor', 'data_dict'):
+        if nfl is not None:
+            kw['noise_floor'] = nfl
+        if rel is not None:
+            kw['relative_error'] = rel
+    sv = emg3d.Survey(p.sources, p.receivers, p.freqs, data=data, **kw)
+    if via in ('setter', 'setter_reset'):
+        if via == 'setter_reset' and std is None:
+            # a directly set standard deviation is removed again: the noise
+            # floor / relative error apply (documented reset)
+            sv.standard_deviation = np.full(p.shape, 7.0*np.nanmax(
+                np.abs(obs)))
+            sv.standard_deviation = None
+        if nfl is not None:
+            sv.noise_floor = nfl
+        if rel is not None:
+            sv.relative_error = rel
+    if std is not None and not isinstance(data, dict):
+        sv.standard_deviation = std
+    return sv
+
+
+def _tmpdir():
+    base = os.path.join(os.path.dirname(os.path.dirname(os.path.dirname(
+        os.path.abspath(__file__)))), '.cache', 'tmp')
+    os.makedirs(base, exist_ok=True)
+    return tempfile.mkdtemp(prefix='c07_', dir=base)
+
+
+def _sim_kwargs(p, survey, simopt, tmp):
+    """Simulation options of spec key 'simopt' (old specs: none)."""
+    import emg3d
+    kw = {}
+    if simopt == 'workers2':
+        kw['max_workers'] = 2
+    elif simopt == 'file_dir':
+        tmp.append(_tmpdir())
+        kw['file_dir'] = tmp[-1]
+    elif simopt == 'input_grid':
+        kw['gridding'] = 'input'
+        kw['gridding_opts'] = emg3d.TensorMesh(
+            [np.array(h, float) for h in p.grid.h],
+            origin=np.array(p.grid.origin, float))
+    elif simopt == 'dict_grid':
+        kw['gridding'] = 'dict'
+        kw['gridding_opts'] = {
+            s: {f: emg3d.TensorMesh([np.array(h, float) for h in p.grid.h],
+                                    origin=np.array(p.grid.origin, float))
+                for f in survey.frequencies} for s in survey.sources}
+    elif simopt == 'tol_gradient':
+        so = dict(simgen.SOLVER)
+        so['tol_gradient'] = 5e-12
+        kw['solver_opts'] = so
+    return kw
+
+
+def _direction(p, kind, seed):
+    """simgen.direction plus 'cell_any' (a single cell anywhere, half of
+    them forced onto a face/edge/corner of the grid) and 'boundary' (dense
+    on the outermost cell layer only)."""
+    if kind in ('dense', 'cell', 'component'):
+        return simgen.direction(p, kind, seed)
+    rng = gen.rng_of(seed, 84)
+    names, arrs = simgen.param_arrays(p)
+    ncomp = len(names)
+    shape = tuple(int(n) for n in p.grid.shape_cells)
+    d = np.zeros((ncomp,)+shape)
+    if kind == 'cell_any':
+        idx = [int(rng.integers(0, n)) for n in shape]
+        if rng.random() < 0.5:
+            nforce = int(rng.integers(1, 4))     # face / edge / corner
+            for ax in rng.permutation(3)[:nforce]:
+                idx[int(ax)] = int(rng.choice([0, shape[int(ax)]-1]))
+        d[(int(rng.integers(0, ncomp)),)+tuple(idx)] = 1.0
+    elif kind == 'boundary':
+        outer = np.ones(shape, bool)
+        outer[1:-1, 1:-1, 1:-1] = False
+        d[:] = np.clip(rng.standard_normal(d.shape), -3, 3)*outer
+    else:
+        raise ValueError(kind)
+    if not p.mapping.startswith('L'):
+        for i, a in enumerate(arrs):
+            d[i] *= np.abs(a)
+    return d
+
+
+def _direct_data(p, sim, direction=None, eps=0.0):
+    """simgen.direct_data with the model's mu_r/epsilon_r (None for all old
+    specs, for which this is identical to simgen.direct_data)."""
+    mur, epsr = p.model.mu_r, p.model.epsilon_r
+    if mur is None and epsr is None:
+        return simgen.direct_data(p, sim, direction, eps)
+    import emg3d
+    import scipy.sparse.linalg as spla
+    from vp import refop
+    names, arrs = simgen.param_arrays(p)
+    conds = {}
+    for i, (n, a) in enumerate(zip(names, arrs)):
+        a = a if direction is None else a + eps*direction[i]
+        conds[n] = gen.map_backward(p.mapping, a)
+    sx = conds['property_x']
+    sy = conds.get('property_y', sx)
+    sz = conds.get('property_z', sx)
+    h = [p.grid.h[0], p.grid.h[1], p.grid.h[2]]
+    shape = tuple(int(n) for n in p.grid.shape_cells)
+    mur = None if mur is None else np.array(mur, float).reshape(shape)
+    epsr = None if epsr is None else np.array(epsr, float).reshape(shape)
+    ii = np.flatnonzero(refop.interior_mask(*shape))
+    out = np.full(p.shape, np.nan+1j*np.nan)
+    lus = {}
+    for i, (sn, src) in enumerate(sim.survey.sources.items()):
+        for k, (fn, f) in enumerate(sim.survey.frequencies.items()):
+            if fn not in lus:
+                A, *_ = refop.assemble(*h, sx, sy, sz, mur, epsr, 2j*np.pi*f)
+                lus[fn] = spla.splu(A[ii][:, ii].tocsc())
+            sf = emg3d.get_source_field(p.grid, src, f)
+            e = emg3d.Field(p.grid, frequency=f)
+            e.field[ii] = lus[fn].solve(sf.field[ii])
+            out[i, :, k] = sim._get_responses(sn, fn, e)
+    return out
+
+
+def _data_converged(p, sim, rtol=1e-6):
+    a = sim.data.synthetic.data
+    b = _direct_data(p, sim)
+    m = np.isfinite(a) & np.isfinite(b)
+    if not m.any():
+        return True
+    return bool(np.all(np.abs(a-b)[m] <= rtol*np.abs(b)[m]))
+
+
+def _with_history(spec, p, obs, noise, mk_sim):
+    """Simulation on which the gradient is taken, after the drawn history
+    (spec key 'history'; old specs: 'fresh')."""
+    import emg3d
+    nfl, rel, std, via = noise
+    hist = spec.get('history') if ENABLE_HISTORY else None
+    hist = hist or 'fresh'
+    if hist == 'regrad_newobs':
+        # gradient for other observed data and another noise model first
+        # (one more datum missing, so that the real data set has a datum
+        # where the first one had none)
+        obs0 = obs*(1.1-0.2j)
+        fin = np.flatnonzero(np.isfinite(obs0))
+        if fin.size > 1:
+            obs0.flat[fin[-1]] = np.nan
+        sim = mk_sim(_make_survey(
+            p, obs0, None if nfl is None else 3.0*nfl,
+            None if rel is None else 0.5*rel,
+            None if std is None else 2.0*std, via))
+        _ = sim.gradient
+        sim.survey.data['observed'][...] = obs
+        if nfl is not None:
+            sim.survey.noise_floor = nfl
+        if rel is not None:
+            sim.survey.relative_error = rel
+        if std is not None:
+            sim.survey.standard_deviation = std
+        sim.clean('computed')
+        return sim, hist
+    sim = mk_sim(_make_survey(p, obs, nfl, rel, std, via))
+    if hist == 'compute':
+        sim.compute()
+    elif hist == 'misfit':
+        _ = sim.misfit
+    elif hist == 'keepresults':
+        _ = sim.misfit
+        sim.clean('keepresults')
+    elif hist == 'results_rt':
+        _ = sim.misfit
+        sim = emg3d.Simulation.from_dict(sim.to_dict('results', copy=True))
+    elif hist == 'copy':
+        sim.compute()
+        sim = sim.copy()
+    elif hist == 'jtvec_first':
+        _ = sim.misfit
+        rng = gen.rng_of(spec['dseed'], 86)
+        amp = np.nanmax(np.abs(obs))
+        vec = amp*(rng.standard_normal(p.shape) +
+                   1j*rng.standard_normal(p.shape))*sim.data.weights.data
+        sim.jtvec(vec)
+    elif hist == 'jvec_first':
+        v = _direction(p, 'dense', spec['dseed'])
+        sim.jvec(v[0] if v.shape[0] == 1 else v)
+    return sim, hist
+
+
 def case_gradient(spec, rec):
-    with warnings.catch_warnings():
-        warnings.simplefilter('ignore')
-        return _case_gradient(spec, rec)
+    tmp = []
+    try:
+        with warnings.catch_warnings():
+            warnings.simplefilter('ignore')
+            return _case_gradient(spec, rec, tmp)
+    finally:
+        for d in tmp:
+            shutil.rmtree(d, ignore_errors=True)
 
 
-def _case_gradient(spec, rec):
+def _case_gradient(spec, rec, tmp):
     p = simgen.build(spec['problem'])
+    keys, unsorted = _apply_keys(p, spec)
+    unit = _apply_unit(p, spec)
     obs = simgen.observed_from_true(p)
     if obs is None:
         raise Inconclusive("true-model solve did not converge")
-    kw, std = simgen.noise_args(p, obs)
+    nfl, rel, std, via, nlab = _noise(p, obs, spec)
+    simopt = spec.get('simopt') if ENABLE_SIMOPT else None
+    if simopt == 'workers2' and p.shape[0]*p.shape[2] < 2:
+        simopt = None
 
-    def fresh(model=None):
-        sv = simgen.make_survey(p, obs)
-        return simgen.make_sim(p, sv, model)
+    def mk_sim(sv):
+        return simgen.make_sim(p, sv, None, **_sim_kwargs(p, sv, simopt, tmp))
 
-    sim = fresh()
+    sim, hist = _with_history(spec, p, obs, (nfl, rel, std, via), mk_sim)
     g = np.array(sim.gradient, float)
     phi = float(sim.misfit)
     if not (simgen.all_converged(sim) and
             simgen.all_converged(sim, 'bfield')):
         raise Inconclusive("forward/adjoint solve did not converge")
-    if not simgen.data_converged(p, sim):
+    if not _data_converged(p, sim):
         raise Inconclusive("responses below the accuracy of the solver")
     ncomp = {'isotropic': 1, 'HTI': 2, 'VTI': 2, 'triaxial': 3}[p.case]
     shape = tuple(int(n) for n in p.grid.shape_cells)
     exp_shape = shape if ncomp == 1 else (ncomp,)+shape
+    ctx_sig = f"{hist}:{simopt}"
     if g.shape != exp_shape:
         raise Violation(f"gradient_shape:{p.case}",
                         f"{g.shape} vs {exp_shape}")
     if not np.all(np.isfinite(g)):
-        raise Violation("gradient_not_finite", "NaN/inf in gradient")
+        raise Violation("gradient_not_finite", f"NaN/inf in gradient "
+                        f"(history {hist}, option {simopt})")
     # reported misfit vs the checker's formula
     syn = sim.data.synthetic.data
-    ref = checker_misfit(obs, syn, kw.get('noise_floor'),
-                         kw.get('relative_error'), std)
+    ref = checker_misfit(obs, syn, nfl, rel, std)
     if abs(phi-ref) > 1e-10*abs(ref):
-        raise Violation(f"misfit_formula:{spec['problem']['noise_kind']}:"
-                        f"{spec['problem']['noise_shape']}",
-                        f"misfit {phi!r} vs checker {ref!r}")
+        raise Violation(f"misfit_formula:{nlab[0]}:{nlab[1]}",
+                        f"misfit {phi!r} vs checker {ref!r}; noise {nlab} "
+                        f"given via {via}; history {hist}; option {simopt}")
     g = g.reshape((ncomp,)+shape)
-    d = simgen.direction(p, spec['dir'], spec['dseed'])
+    d = _direction(p, spec['dir'], spec['dseed'])
     gd = float(np.sum(g*d))
     scale = float(np.linalg.norm(g)*np.linalg.norm(d))
     if phi == 0 or scale == 0:
@@ -110,38 +464,48 @@ def _case_gradient(spec, rec):
     # models come from direct solves of the checker-assembled operator
     # (simgen.direct_data), the misfit from the checker's own formula.
     def phi_of(eps):
-        syn_d = simgen.direct_data(p, sim, d, eps)
-        return checker_misfit(obs, syn_d, kw.get('noise_floor'),
-                              kw.get('relative_error'), std)
+        syn_d = _direct_data(p, sim, d, eps)
+        return checker_misfit(obs, syn_d, nfl, rel, std)
     fds = [(phi_of(eps)-phi_of(-eps))/(2*eps) for eps in STEPS]
     fds.append((4*fds[1]-fds[0])/3)      # Richardson of the first two
-    errs = [abs(fd-gd)/scale for fd in fds]
+    aerr = [abs(fd-gd) for fd in fds]
+    errs = [e/scale for e in aerr]
     best = min(errs)
     srck = '+'.join(sorted(set(spec['problem']['src'])))
     sig = f"{p.mapping}:{p.case}"
+    info = (f"for steps {STEPS}; g.d={gd:.6e}, |g||d|={scale:.3e}, "
+            f"misfit={phi:.6e}; sources {srck}; receivers "
+            f"{spec['problem']['rec']}; noise {nlab} via {via}; history "
+            f"{hist}; option {simopt}; keys {keys}; unit {unit}")
     if best > 1e-5:
         raise Violation(
             f"gradient_not_derivative:{sig}",
-            f"|FD-g.d|/(|g||d|) = {['%.2e' % e for e in errs]} for steps "
-            f"{STEPS}; g.d={gd:.6e}, |g||d|={scale:.3e}, misfit={phi:.6e}; "
-            f"sources {srck}; receivers {spec['problem']['rec']}; "
-            f"noise {spec['problem']['noise_kind']}/"
-            f"{spec['problem']['noise_shape']}")
+            f"|FD-g.d|/(|g||d|) = {['%.2e' % e for e in errs]} {info}")
     if errs[0] > 1e-4 and errs[1] > errs[0]/3 + 3*best:
         raise Violation(f"gradient_not_second_order:{sig}",
                         f"errors {errs} for steps {STEPS} + Richardson")
+    sparse = spec['dir'] in SPARSE_DIRS
+    if ENABLE_SPARSE_ORACLE and sparse and spec.get('history') is not None \
+            and min(aerr) > 1e-3*abs(gd) + 3e-6*scale:
+        raise Violation(
+            f"gradient_not_derivative_sparse:{spec['dir']}:{sig}",
+            f"|FD-g.d|/|g.d| = {['%.2e' % (e/abs(gd)) for e in aerr]}, "
+            f"/(|g||d|) = {['%.2e' % e for e in errs]} {info}")
     rec.cls(f"mapping={p.mapping}", f"case={p.case}", f"dir={spec['dir']}",
-            f"noise={spec['problem']['noise_kind']}",
-            f"noise_shape={spec['problem']['noise_shape']}",
+            f"noise={nlab[0]}", f"noise_shape={nlab[1]}",
+            f"re_shape={nlab[2]}", f"noise_via={via}",
             f"nan={spec['problem']['nan_frac'] > 0}",
             f"nan_mode={spec['problem'].get('nan_mode')}",
             f"relative_rec={any(p.rec_relative)}",
             *[f"src={k}" for k in set(spec['problem']['src'])],
             *[f"rec={k}" for k in set(spec['problem']['rec'])],
-            f"nsrc={p.shape[0]}", f"nfreq={p.shape[2]}")
+            f"nsrc={p.shape[0]}", f"nfreq={p.shape[2]}",
+            f"history={hist}", f"simopt={simopt}", f"keys={keys}",
+            f"freq_unsorted={unsorted}", f"unit={unit}")
     rec.nt(spec)
     rec.note({'shape': list(shape), 'mapping': p.mapping, 'case': p.case,
-              'errs': errs, 'misfit': phi, 'sources': spec['problem']['src'],
+              'errs': errs, 'rel_gd': min(aerr)/abs(gd) if gd else None,
+              'misfit': phi, 'sources': spec['problem']['src'],
               'receivers': spec['problem']['rec']})
 
 
